@@ -668,7 +668,8 @@ class CallMixin(object):
                         raise RaiseSignal(exc, getattr(node, "lineno", 0))
             # frame: havoc what the callee may modify
             if not spec.pure and not self.spec_mode:
-                for m in spec.modifies:
+                for m in list(spec.modifies) + ["self." + g for g in spec.ghost_exit
+                                                 if "self." + g not in spec.modifies]:
                     self.havoc_modifies(m, spec, fr)
             elif spec.modifies and self.spec_mode:
                 raise Unsupported("impure function %s in a specification" % spec.path)
